@@ -86,3 +86,4 @@ Definition check_run (vc : vcase) (r : vrun) : verdict :=
   end.
 
 Definition check_case (vc : vcase) : list verdict := map (check_run vc) (vc_runs vc).
+
